@@ -34,6 +34,12 @@ def gen_segs(rng, kind):
     if kind == "nested":
         s = [rng.randrange(16)]
         return [s + [rng.randrange(16)], s] if rng.random() < 0.5 else [s, s + [3, 4], [(s[0] + 1) % 16]]
+    if kind == "nested3":
+        # three distinct lengths, the nesting between the two longer ones (or between shortest and longest)
+        a, b = rng.sample(range(16), 2)
+        c, d = rng.randrange(16), rng.randrange(16)
+        variants = [[[a], [b, c], [b, c, d]], [[b, c, d], [a], [b, c]], [[a], [a, c, d], [b, c]], [[b, c], [a, c, d, 1], [a, c, d]]]
+        return rng.choice(variants)
     if kind == "bad":
         return [[rng.choice([16, 17, 255])], [1]]
     raise ValueError(kind)
@@ -66,7 +72,7 @@ def gen_case(rng, tier):
         members = fog_list(f)
         r = rng.random()
         if r < 0.55:
-            kind = rng.choice(["leaf", "ext", "branch", "branch", "mixed", "mixed", "dup", "nested", "bad"])
+            kind = rng.choice(["leaf", "ext", "branch", "branch", "mixed", "mixed", "dup", "nested", "nested3", "bad"])
             if members and rng.random() < 0.9:
                 p = list(rng.choice(members))
             else:
@@ -261,6 +267,8 @@ def corpus():
     return [
         [("explore", [], [[1], [2, 3]]), ("nr", [1, 5]), ("nu", [2]), ("explore", [1], []), ("nr", [2, 3, 4]), ("nr", [3]),
          ("explore", [2, 3], [[0], [15]]), ("nu", [2, 3, 8]), ("nu", [2, 3, 7]), ("rt",), ("mark", [[2, 3, 0], [2, 3, 15]]), ("nu", []), ("nr", [])],
+        [("explore", [], [[1], [2, 3], [2, 3, 4]]), ("explore", [], [[2, 3, 4], [1], [2, 3]]), ("explore", [], [[1], [2, 3], [4, 5, 6]]),
+         ("explore", [2, 3], []), ("nu", [2, 3, 4]), ("rt",)],
         [("explore", [], [[1], [1, 2]]), ("explore", [], [[1], [1]]), ("explore", [5], []), ("explore", [], [[16]]), ("mark", [[7]]), ("rt",)],
     ]
 
